@@ -31,6 +31,9 @@ Ok(e) ==
                               /\ e.seen = SelectSeq([i \in 1..3 |-> <<Route(a(i - 1)), a(i - 1)>>], LAMBDA x : Instr(x[1]))
                               /\ e.v = << MemVal(mv, Route(a(0)), a(0)) + 256 * MemVal(mv, Route(a(1)), a(1)), MemVal(mv, Route(a(2)), a(2)) >>
     [] e.k = "dump"   -> ~e.panic /\ e.n = DumpCount(e.s, e.e) /\ e.data = DumpPointwise(Route, mv, e.s, e.e)
+    \* a dump of more than 64 KiB is compared by the harness with byte-wise reads of the real bus (the C13 statement
+    \* itself); the specification fixes the count
+    [] e.k = "bigdump" -> ~e.panic /\ e.n = DumpCount(e.s, e.e) /\ e.mism = 0
     [] OTHER -> TRUE
 
 Init == l = 1 /\ bad = {} /\ log = <<>> /\ mv = <<>>
